@@ -33,7 +33,8 @@ def extra_factories(rng, n):
         st = rng.choice(statuses)
         hs = []
         for _ in range(rng.randrange(0, 4)):
-            hs.append((rng.choice(["X-A", "x-a", "Set-Cookie", "Content-Type", "Content-Length", "ETag", "Vary"]),
+            hs.append((rng.choice(["X-A", "x-a", "Set-Cookie", "Content-Type", "Content-Length", "ETag", "Vary",
+                                   "content-type", "CONTENT-TYPE", "content-length", "Content-length", "set-cookie"]),
                        rng.choice(["1", "é", "a=b; Path=/", "", "text/x"])))
         if kind < 0.35:
             d = rng.choice([W.f_str(rng.choice(texts)), W.f_bytes(bytes(rng.getrandbits(8) for _ in range(rng.randrange(0, 5)))),
@@ -85,7 +86,7 @@ def generate(rng, tier):
 def to_model(case):
     if case.split()[1] == "val":
         return [case]
-    return ["C01 " + case.split(" ", 1)[1]]
+    return W.to_model("C01 " + case.split(" ", 1)[1])
 
 
 def emit_value(tok):
@@ -170,7 +171,10 @@ def oracle(case):
                     exp = {"error": True}
     if exp is None:
         return []
-    obs, detail = emit_value(t[2])
+    try:
+        obs, detail = emit_value(t[2])
+    except Exception as err:
+        return [Violation("c05-emit-raises", case, "handing the value back raised %r instead of producing an answer" % (err,))]
     bad = None
     if exp.get("error"):
         if obs not in ("ResponseError", "TypeError"):
